@@ -53,6 +53,18 @@ CHECKS['C16'] = (
  '65536 binary16 patterns against numpy.',
  'binary32/64 are checked on a structured subset only (declared); decoders written from the published layouts; numpy/struct '
  'trusted for the platform formats.', '§5 C16')
+CHECKS['C18'] = (
+ 'three exhaustive explorations on the real interpreter: all argument structures to depth 2; explicit-state BFS over '
+ 'operation histories (state = replayed event list); stateless preemption-bounded search of thread schedules under a '
+ 'cooperative sys.settrace scheduler (CHESS style: bound 0, 1, then 2)',
+ 'Argument isolation over every argument structure up to depth 2 x 19 programs; every history of evaluation / transformation '
+ '/ direct rounding events up to depth 3 (thorough 4) compared with pristine single-event results; every schedule of 8 two-thread '
+ 'drivers forced to collide (same cold function under different contexts, nested calls through the default interpreter, MPFR at '
+ 'different precisions) with at most 1 (thorough 2) preemptions at ~50-600 scheduling points, each result compared with its '
+ 'sequential result; a deliberately racy canary must show >= 2 outcomes or the run aborts.',
+ 'Switches happen only at the declared points (calls of an allow-list, lines inside the check-then-act functions); a race inside '
+ 'a C extension with the GIL released is outside the model; the free-running real-thread pass is a reported sample, not a decider.',
+ '§5 C18')
 PENDING = {}
 
 def main():
